@@ -121,10 +121,12 @@ def parse_site(out_dir):
         raw = open(os.path.join(out_dir, rel), encoding="utf-8", errors="replace").read()
         soup = BeautifulSoup(raw, "html.parser")
         ids = []
+        id_attrs = []
         links = []
         for el in soup.find_all(True):
             if el.has_attr("id"):
                 ids.append(el["id"])
+                id_attrs.append((el["id"], el.name + ":" + core.h(el.get_text(" ", strip=True))[:12]))
             if el.name == "a" and el.has_attr("name"):
                 ids.append(el["name"])
             for a in URL_ATTRS:
@@ -139,7 +141,7 @@ def parse_site(out_dir):
                 sc.replace_with(" " + sc.get_text() + " ")  # TeX source shown by MathJax: visible text
             else:
                 sc.decompose()
-        pages[rel] = {"ids": ids, "links": links, "text": soup2.get_text(" "), "title": (soup.title.get_text() if soup.title else ""), "raw_len": len(raw)}
+        pages[rel] = {"ids": ids, "id_attrs": id_attrs, "links": links, "text": soup2.get_text(" "), "title": (soup.title.get_text() if soup.title else ""), "raw_len": len(raw)}
     search = []
     sp = os.path.join(out_dir, "search", "search_database.json")
     if os.path.exists(sp):
@@ -209,3 +211,44 @@ def check_links(site, out_dir):
         if "url" in rec:
             check("search.html", rec["url"], "search_index")
     return problems, nlinks
+
+
+RELURL_MON = {"evals": 0, "entity_evals": 0, "viol": []}
+
+
+def install_relurl_contract():
+    """Post-condition on the `relurl` template filter (ford.output.relative_url), evaluated on every link the templates render:
+    for an entity argument the returned link, read from the directory of the page being rendered, is the entity's own URL
+    (`entity.get_url()`), whatever was rendered before.  The filter table keeps a reference bound at import time, so the wrapped
+    function is put into the table itself.  Returns the monitor's counters (same object on every call)."""
+    import ford.output as fo
+    import ford.sourceform as sf
+
+    if getattr(fo, "_vf_relurl_wrapped", False):
+        return RELURL_MON
+    orig = fo.env.filters["relurl"]
+
+    def checked(entity, page_url):
+        result = orig(entity, page_url)
+        RELURL_MON["evals"] += 1
+        try:
+            if isinstance(entity, sf.FortranBase) and not hasattr(entity, "external_url"):
+                url = entity.get_url()
+                m = re.search(r"""href=["']([^"']*)["']""", str(result))
+                if url and m and not m.group(1).startswith("http"):
+                    RELURL_MON["entity_evals"] += 1
+                    href = urllib.parse.unquote(m.group(1))
+                    path, _, frag = href.partition("#")
+                    want_path, _, want_frag = urllib.parse.unquote(str(url)).partition("#")
+                    got = os.path.normpath(os.path.join(os.path.dirname(str(page_url)), path))
+                    ok = (got == os.path.normpath(want_path) or got.endswith(os.sep + os.path.normpath(want_path).lstrip("./"))) and frag == want_frag
+                    if not ok and len(RELURL_MON["viol"]) < 20:
+                        RELURL_MON["viol"].append({"entity": f"{type(entity).__name__}:{entity.name}", "defined_in": str(getattr(entity, "filename", "")),
+                                                   "entity_url": str(url), "rendered_href": m.group(1), "page": str(page_url)})
+        except Exception as e:  # the monitor must not change the run
+            RELURL_MON.setdefault("errors", []).append(f"{type(e).__name__}: {e}")
+        return result
+
+    fo.env.filters["relurl"] = checked
+    fo._vf_relurl_wrapped = True
+    return RELURL_MON
